@@ -312,18 +312,20 @@ def _conflicts(ctx, P):
         def m_parse(ev, args, kw, node):
             return (args[0], copy.deepcopy(parsed))
 
-        def m_set_metrics(ev, args, kw, node):
-            recorded.setdefault("metrics", []).append((args[1], args[2]))
-
         def m_assign(ev, args, kw, node):
             return None
 
-        ev = Evaluator(P, models={"warnings.warn": lambda ev, a, k, n: None, "metadata_parsers:parse_metadata": m_parse, "grid:Grid.set_metrics": m_set_metrics,
-                                  "grid:Grid._assign_face_connections": m_assign})
+        # the registration itself is interpreted (whatever internal route the constructor takes): the parsed metrics
+        # must be found in the registry afterwards
+        def getitem(ev, recv, args, kw, node):
+            return Obj("DataArray", str(args[0]), (), {"dims": (dimsym("AX", "center"),), "name": args[0], "__isinstance__": ("DataArray",)})
+
+        ev = Evaluator(P, models={"warnings.warn": lambda ev, a, k, n: None, "metadata_parsers:parse_metadata": m_parse, "grid:Grid._assign_face_connections": m_assign},
+                       method_models={("Dataset", "__getitem__"): getitem, ("DataArray", "reset_coords"): lambda ev, r, a, k, n: r.with_eff(("reset_coords",))})
 
         def make():
             dims = (dimsym("AX", "center"), dimsym("AX", "left"), dimsym("AX", "right"), Sym("face"))
-            ds = Obj("Dataset", "ds", (), {"dims": dims, "__isinstance__": ("Dataset",)})
+            ds = Obj("Dataset", "ds", (), {"dims": dims, "variables": ["dx"], "data_vars": ["dx"], "__isinstance__": ("Dataset",)})
             me = Obj("Grid", "self", (), {"__class__": "grid:Grid"})
             a = dict(self=me, ds=ds, coords=None, periodic=False, fill_value=None, default_shifts=None, boundary=None, face_connections=None, metrics=None, autoparse_metadata=True)
             a.update(copy.deepcopy(user))
@@ -347,8 +349,10 @@ def _conflicts(ctx, P):
                 me = o.env.get("self")
                 if getter is not None and getter(me) != pick(pval):
                     bad = f"the parsed `{key}` is not used when the user gives none (found {getter(me)!r})"
-                if key == "metrics" and recorded.get("metrics") != [((AXs,), ["dx"])]:
-                    bad = "the parsed `metrics` are not registered when the user gives none"
+                if key == "metrics":
+                    reg = me.attrs.get("_metrics")
+                    if not (isinstance(reg, dict) and list(reg) == [frozenset([AXs])] and [getattr(v, "name", None) for v in reg[frozenset([AXs])]] == ["dx"]):
+                        bad = f"the parsed `metrics` are not registered when the user gives none (registry {reg!r})"
                 if key == "default_shifts" and me.attrs["axes"][AXs].attrs["_default_shifts"].get("center") != "right" and False:
                     bad = "parsed default_shifts not used"
             # (b) user value and parsed value together: refused, nothing built
